@@ -2,6 +2,9 @@ package main
 
 import (
 	"fmt"
+	"math/rand"
+
+	asv1 "github.com/pingcap/advanced-statefulset/client/apis/apps/v1"
 
 	"verif/harness/mon"
 	"verif/harness/simapi"
@@ -104,6 +107,52 @@ func calmFamily(prop string) func(ctx *Ctx) *Result {
 					cr = r.Calm(3)
 				}
 			}
+			// event-driven epilogue (a quarter of the cases): from the quiet fixed point the user makes one more
+			// edit; nothing but the controller's own handlers and queue may bring the set to the new target
+			eventDriven := false
+			if cr.Converged && i%4 == 1 && len(r.LiveSets()) > 0 && prop == "C02" {
+				set := r.LiveSets()[0].Name
+				w.DeliverAll()
+				w.ResetQueue()
+				er := rand.New(rand.NewSource(ctx.caseSeed(i) + 17))
+				var what string
+				w.EditSet(set, func(s *asv1.StatefulSet) {
+					switch er.Intn(4) {
+					case 0:
+						sl := []int32{int32(er.Intn(4))}
+						world.SetSlots(s, sl)
+						what = fmt.Sprintf("slots=%v (annotation only)", sl)
+					case 1:
+						world.SetSlots(s, nil)
+						n := int32(er.Intn(5))
+						s.Spec.Replicas = world.I32(n)
+						what = fmt.Sprintf("slots cleared, replicas=%d", n)
+					case 2:
+						v := er.Intn(4)
+						s.Spec.Template = world.Template(s.Spec.Selector.MatchLabels, v)
+						what = fmt.Sprintf("template=v%d", v)
+					default:
+						n := int32(1 + er.Intn(4))
+						s.Spec.Replicas = world.I32(n)
+						what = fmt.Sprintf("replicas=%d", n)
+					}
+				})
+				r.Trace = append(r.Trace, "event-driven epilogue: user "+what)
+				quiescent, _ := r.EventLoop(800)
+				res.Stats["event_driven_epilogues"]++
+				eventDriven = true
+				snap := w.Srv.Snap()
+				if s := w.GetSet(set); s != nil && s.DeletionTimestamp == nil {
+					if why := world.Converged(snap, s); why != "" && quiescent {
+						res.Violations = append(res.Violations, Witness{Prop: "C02", Clause: "quiescent-not-converged", Msg: fmt.Sprintf("after the edit %q the system went quiet (queue empty, nothing waiting, caches in sync) without converging: %s", what, why),
+							Family: "calm", Case: i, Seed: ctx.Seed, Tier: ctx.Tier, Trace: tail(r.Trace, 200)})
+					} else if !quiescent {
+						res.Violations = append(res.Violations, Witness{Prop: "C02", Clause: "no-quiescence", Msg: fmt.Sprintf("after the edit %q no quiescence within 800 worker steps", what),
+							Family: "calm", Case: i, Seed: ctx.Seed, Tier: ctx.Tier, Trace: tail(r.Trace, 200)})
+					}
+				}
+			}
+			_ = eventDriven
 			if prop == "C02" {
 				if !cr.Converged {
 					for set, why := range cr.NotConv {
@@ -146,5 +195,5 @@ func init() {
 		Rule:   "seeded scenarios: hostile initial population + 0..80 hostile steps (faults, lag, restarts, user edits, strays), then the calm phase (user stops, faults stop, caches catch up, kubelet makes every remaining pod Running+Ready, terminating pods vanish); bounded progress: converged within 10*(pods+replicas)+30 rounds, then 5 more rounds must issue no write; non-trivial = the calm phase needed at least one round; distinct by trace tail",
 		Assume: append([]string{"'eventually' is restated as bounded progress in logical rounds (no finite run decides unbounded liveness)", "premise: pods squatting a name of the set without being claimable are removed by their owners; a Failed/Succeeded pod outside the desired set of an OrderedReady set is restarted; a raised pause flag is lowered; sets being deleted are exempt"}, simAssumptions...),
 		Cases:  scenarioCases(3200, 64000), Run: calmFamily("C02"),
-		Race: runLive("C02"), RaceCases: scenarioCases(16, 160), Floors: []string{"converged", "quiet_fixed_points", "scenarios_needing_calm_work", "epilogues_failed_last_status_write"}})
+		Race: runLive("C02"), RaceCases: scenarioCases(16, 160), Floors: []string{"converged", "quiet_fixed_points", "scenarios_needing_calm_work", "epilogues_failed_last_status_write", "event_driven_epilogues"}})
 }
